@@ -295,7 +295,23 @@ fn session(seed: u64, scenario: &str) -> Vec<Value> {
         }
         _ => {}
     }
-    drop(term);
+    if scenario == "unwind" {
+        // the application fails between two polls: the object is released while the thread unwinds
+        if seed % 2 == 1 {
+            let v = 0x80 + (frame_no % 100) as u8;
+            ev(format!(r#"{{"ev":"app_write","v":{},"n":{}}}"#, v, 700));
+            term.write_all(&vec![v; 700]).unwrap();
+            term.flush().unwrap();
+        }
+        ev(r#"{"ev":"note","what":"application panics, the terminal object is dropped by the unwinding"}"#.to_string());
+        let r = std::panic::catch_unwind(std::panic::AssertUnwindSafe(move || {
+            let _owned = term;
+            panic!("application failure between polls");
+        }));
+        assert!(r.is_err());
+    } else {
+        drop(term);
+    }
     let _ = std::fs::remove_file(&tee);
     let after = termios_of(keep.as_raw_fd());
     // let the peer drain what is left, then stop it
